@@ -2,6 +2,7 @@ import XV.Props.C04
 import XV.Props.C05
 import XV.Props.C03
 import XV.Lemmas.CrashCheck
+import XV.Lemmas.CrashSteps
 /-!
 C06 — crash consistency at every storage-write boundary.
 
@@ -337,6 +338,20 @@ theorem crash_history_invariants (e : Env) (g : St) (n : Node) (ops : List Op) (
   obtain ⟨C, hC⟩ := history_Ledger e g n ops H x hx
   exact ⟨history_SInv e g n ops H x hx, ⟨C, hC⟩, hC.toPoolInv, hC.toPoolInv.insSpent⟩
 
+/-- **every crash state of every history is the canonical state of the block its pointer names plus its pool — from
+per-operation side conditions alone** (`SStep`): for `submit` the side conditions of the C01 transaction theorems, for
+`walk` `WalkTree` and `PoolValid` of the re-admitted pool, for `play` an empty pool; ledger operations ask nothing.
+PARTIAL in exactly one place: for `play` on a NON-EMPTY pool and for `playForMiner` the step condition is the
+conclusion itself (that they keep the node on the canonical state is open in C01: it needs the commutation of the
+block's transactions with the independent pending ones). -/
+theorem crash_history_canonical (e : Env) (g : St) (n : Node) (ops : List Op) (hpl : ParentLower e) (hinv : KVInv e g)
+    (htree : TreeValid e g) (h0 : SInv e g n.s)
+    (hsteps : ∀ k op, ops[k]? = some op → SStep e g (run e n (ops.take k)) op)
+    (x : Node) (hx : x ∈ crashStates e n ops) : SInv e g x.s := by
+  refine crashStates_SInv e g n ops hinv htree (run_SInv e g n ops hpl hinv htree h0 hsteps) ?_ x hx
+  intro k dest prune hop
+  exact (hsteps k _ hop).1
+
 -- every crash state of the example history: conservation, pool without duplicates, every pending input spent, and the
 -- tables are those of the canonical state of the pointer's block with the pool applied
 example : ∀ x ∈ crashStates cEnv cN cOps,
@@ -471,6 +486,16 @@ theorem crash_walk_resume (e : Env) (s : St) (lh : Int) (dest : Nat) (prune : Bo
     rw [h, walk_eq_core, hok]
     rfl
 
+-- the walk across the fork resumed from each of its four block-boundary states: same verdict and same state as the
+-- interrupted walk before its re-admissions (pointer 4, empty pool, irreversible height 1, total 28)
+example : ∀ x ∈ walkMid cEnv cM.s (lh cM) 4 false,
+    (walk cEnv x (lh cM) 4 false).2 = true ∧ (walk cEnv x (lh cM) 4 false).1.pointer = 4 ∧
+    (walk cEnv x (lh cM) 4 false).1.pool = [] ∧ (walk cEnv x (lh cM) 4 false).1.irrev = 1 ∧
+    (walk cEnv x (lh cM) 4 false).1.U = (walkCore cEnv cM.s (lh cM) 4 false).1.U ∧
+    (walk cEnv x (lh cM) 4 false).1.ZU = (walkCore cEnv cM.s (lh cM) 4 false).1.ZU ∧
+    (walk cEnv x (lh cM) 4 false).1.ZD = (walkCore cEnv cM.s (lh cM) 4 false).1.ZD ∧
+    (walk cEnv x (lh cM) 4 false).1.total = 28 := by decide
+
 /-- **(c) recovery after a crash inside the synchronisation walk reaches the state of the uninterrupted run.**
 Operation `k` of the history walks the state to the ledger tip (`walk tip false`, the node's step after
 `ConfirmBlock` switched the trunk, and the restart itself); the process dies after any batch of it, leaving
@@ -590,6 +615,22 @@ example : ∀ x ∈ crashStates cEnv cN cOps, (recover cEnv x).2 = true ∧ (rec
     rowsEq (recover cEnv x).1.s.ZU (applyPool cEnv (recover cEnv x).1.s.pool (canon cEnv cG x.l.tip)).ZU = true ∧
     (recover cEnv x).1.s.total = (applyPool cEnv (recover cEnv x).1.s.pool (canon cEnv cG x.l.tip)).total := by decide
 
+-- all crash states with ledger tip 4 whose restart ends with an empty pool show, after the restart, the very same rows,
+-- key tables and total (here even as lists)
+example : ∀ x ∈ crashStates cEnv cN cOps, ∀ y ∈ crashStates cEnv cN cOps,
+    x.l.tip = 4 → y.l.tip = 4 → (recover cEnv x).1.s.pool = [] → (recover cEnv y).1.s.pool = [] →
+    (recover cEnv x).1.s.U = (recover cEnv y).1.s.U ∧ (recover cEnv x).1.s.ZU = (recover cEnv y).1.s.ZU ∧
+    (recover cEnv x).1.s.ZD = (recover cEnv y).1.s.ZD ∧ (recover cEnv x).1.s.total = (recover cEnv y).1.s.total := by
+  decide
+-- the history continued by a truncation done in the right order (`truncateForMiner`): the state is walked back to
+-- block 3, then the ledger is truncated to block 3. In all 25 crash states the pointer's block is stored, and the
+-- restart succeeds and ends at the ledger tip (4 before the truncation batch, 3 after it)
+example : (crashStates cEnv cN (cOps ++ [.walk 3 false, .truncate 3])).length = 25 ∧
+    ∀ x ∈ crashStates cEnv cN (cOps ++ [.walk 3 false, .truncate 3]),
+      Stored x.l x.s.pointer ∧ (recover cEnv x).2 = true ∧ (recover cEnv x).1.s.pointer = x.l.tip ∧
+      rowsEq (recover cEnv x).1.s.U (applyPool cEnv (recover cEnv x).1.s.pool (canon cEnv cG x.l.tip)).U = true := by
+  decide
+
 -- ------------------------------------------------------------------ 2 (d). the irreversible height
 
 /-- **(d) along a consensus walk the irreversible height never decreases from batch to batch**: the list "state before
@@ -689,6 +730,29 @@ private theorem cLedgerSteps : ∀ k op, cOps[k]? = some op → LedgerStep cEnv 
   | 5, hop => cases hop; exact ⟨by decide, by decide⟩
   | 6, hop => cases hop; exact ⟨cTree, by decide⟩
   | k + 7, hop => simp [cOps] at hop
+
+private theorem cSSteps : ∀ k op, cOps[k]? = some op → SStep cEnv cG (run cEnv cN (cOps.take k)) op := by
+  intro k op hop
+  match k, hop with
+  | 0, hop => cases hop; exact trivial
+  | 1, hop => cases hop; exact Or.inl ⟨by decide, by decide⟩
+  | 2, hop =>
+    cases hop
+    exact fun _ => ⟨(by decide : TxWFC cEnv 22).sound, absent_of_rows _ _ (by decide), by decide⟩
+  | 3, hop =>
+    cases hop
+    exact fun _ => ⟨(by decide : TxWFC cEnv 23).sound, absent_of_rows _ _ (by decide), by decide⟩
+  | 4, hop => cases hop; exact trivial
+  | 5, hop => cases hop; exact trivial
+  | 6, hop =>
+    cases hop
+    exact ⟨cTree, fun _ => (by decide : PoolValidC cEnv (walk cEnv cM.s (lh cM) 4 false).1.pool (canon cEnv cG 4)).sound⟩
+  | k + 7, hop => simp [cOps] at hop
+
+-- the per-operation side conditions `SStep` hold as well: `crash_history_canonical` applies
+example : ∀ x ∈ crashStates cEnv cN cOps, SInv cEnv cG x.s :=
+  crash_history_canonical cEnv cG cN cOps (parentLower_of_blocks _ (by decide)) (KVInv_empty cEnv cG rfl rfl)
+    (treeValid_of_blocks _ _ (by decide)) (cSInv 0 (by decide)).sound cSSteps
 
 -- so the history-level theorems apply to it: every crash state satisfies the C01 and C02 invariants, carries a ledger
 -- with the main-chain invariant that stores the pointer's block, and a successful restart lands on the canonical state
